@@ -15,6 +15,11 @@
 (*  "stale_token_on_rewait"  a wait on a descriptor whose interest is already  *)
 (*                    recorded returns at once, leaving the token of the        *)
 (*                    coroutine that registered first                           *)
+(*  "record_token_kept"  a wait by another coroutine re-registers the          *)
+(*                    descriptor with its token but the runtime's record keeps  *)
+(*                    the token that was there: when the first coroutine waits  *)
+(*                    again the record says "mine" and the kernel still holds   *)
+(*                    the other one's token (seeded/C20)                        *)
 (*  "resume_without_fd_check"  an event resumes the coroutine named by the      *)
 (*                    token whatever descriptor that coroutine waits on now     *)
 EXTENDS Naturals, Sequences, FiniteSets, TLC, Json
@@ -30,15 +35,17 @@ Enc(id) == IF Dev("token_fold32") THEN <<0, Xor(id[1], id[2])>> ELSE id
 VARIABLES osreg,     \* [Loops -> [Fds -> SUBSET Ints]]   what the kernel was told, with the token
           ostok,     \* [Loops -> [Fds -> token]]
           recs,      \* the runtime's records: [Loops -> [Fds -> SUBSET Ints]] (all loops share entry 1 if global)
+          rectok,    \* [Loops -> [Fds -> token]]  the token the runtime believes is registered
           want,      \* [Loops -> [Fds -> SUBSET Ints]]   outstanding interests by the API history
           parked,    \* [Ids -> <<loop, fd>> or <<0, 0>>]  coroutines waiting for readiness
           woken,     \* set of <<id, how>>, how \in {"callback"}
           viol, hist
-vars == <<osreg, ostok, recs, want, parked, woken, viol, hist>>
-view == <<osreg, ostok, recs, want, parked, woken, viol, Len(hist)>>
+vars == <<osreg, ostok, recs, rectok, want, parked, woken, viol, hist>>
+view == <<osreg, ostok, recs, rectok, want, parked, woken, viol, Len(hist)>>
 
 R(l) == IF Dev("records_global") THEN 1 ELSE l
 Init == /\ osreg = [l \in Loops |-> [f \in Fds |-> {}]] /\ ostok = [l \in Loops |-> [f \in Fds |-> <<0, 0>>]]
+        /\ rectok = [l \in Loops |-> [f \in Fds |-> <<0, 0>>]]
         /\ recs = [l \in Loops |-> [f \in Fds |-> {}]] /\ want = [l \in Loops |-> [f \in Fds |-> {}]]
         /\ parked = [i \in Ids |-> <<0, 0>>] /\ woken = {} /\ viol = "none" /\ hist = <<>>
 Go == viol = "none" /\ Len(hist) < MaxOps
@@ -50,14 +57,26 @@ Wait(l, f, k, id) ==
   /\ hist' = Append(hist, [op |-> "wait", loop |-> l, fd |-> f, kind |-> k])
   /\ want' = [want EXCEPT ![l][f] = @ \cup {k}]
   /\ IF k \in recs[R(l)][f]
-     THEN \* "already registered": the intended design still makes the registration carry this waiter's token
-          /\ ostok' = IF Dev("stale_token_on_rewait") THEN ostok ELSE [ostok EXCEPT ![l][f] = Enc(id)]
+     THEN \* "already registered": the intended design still makes the registration carry this waiter's token:
+          \* if the recorded token is not this waiter's, the descriptor is registered again and the record updated
+          /\ IF Dev("stale_token_on_rewait") \/ rectok[R(l)][f] = Enc(id)
+             THEN UNCHANGED <<ostok, rectok>>
+             ELSE /\ ostok' = [ostok EXCEPT ![l][f] = Enc(id)]
+                  /\ rectok' = IF Dev("record_token_kept") THEN rectok ELSE [rectok EXCEPT ![R(l)][f] = Enc(id)]
           /\ UNCHANGED <<osreg, recs>>
      ELSE /\ osreg' = [osreg EXCEPT ![l][f] = recs[R(l)][f] \cup {k}]
           /\ ostok' = [ostok EXCEPT ![l][f] = Enc(id)]
+          /\ rectok' = [rectok EXCEPT ![R(l)][f] = Enc(id)]
           /\ recs' = [recs EXCEPT ![R(l)][f] = @ \cup {k}]
   /\ parked' = [parked EXCEPT ![id] = <<l, f>>]
   /\ UNCHANGED <<woken, viol>>
+
+\* the wait runs into its time limit: the coroutine stops waiting, the registration stays as it is
+Timeout(id) ==
+  /\ Go /\ parked[id] # <<0, 0>>
+  /\ hist' = Append(hist, [op |-> "timeout", loop |-> parked[id][1], fd |-> parked[id][2]])
+  /\ parked' = [parked EXCEPT ![id] = <<0, 0>>]
+  /\ UNCHANGED <<osreg, ostok, recs, rectok, want, woken, viol>>
 
 \* del_read_event / del_write_event / del_event on loop l
 Del(l, f, ks) ==
@@ -66,7 +85,7 @@ Del(l, f, ks) ==
   /\ IF recs[R(l)][f] \cap ks = {} THEN UNCHANGED <<osreg, recs>>
      ELSE /\ osreg' = [osreg EXCEPT ![l][f] = recs[R(l)][f] \ ks]
           /\ recs' = [recs EXCEPT ![R(l)][f] = @ \ ks]
-  /\ UNCHANGED <<ostok, parked, woken, viol>>
+  /\ UNCHANGED <<ostok, rectok, parked, woken, viol>>
 
 \* close from a plain thread: the interest is removed from every loop, the number may be reused
 Close(f) ==
@@ -75,7 +94,7 @@ Close(f) ==
   /\ osreg' = [l \in Loops |-> [osreg[l] EXCEPT ![f] = {}]]      \* the kernel forgets a closed descriptor
   /\ recs' = [l \in Loops |-> [recs[l] EXCEPT ![f] = {}]]
   /\ parked' = [i \in Ids |-> IF parked[i][2] = f THEN <<0, 0>> ELSE parked[i]]
-  /\ UNCHANGED <<ostok, woken, viol>>
+  /\ UNCHANGED <<ostok, rectok, woken, viol>>
 
 \* the kernel reports readiness of f on loop l with the registered token; the loop resumes by token
 Ready(l, f) ==
@@ -90,11 +109,12 @@ Ready(l, f) ==
         /\ parked' = [i \in Ids |-> IF i \in hit THEN <<0, 0>> ELSE parked[i]]
         /\ viol' = IF \E i \in hit : parked[i][2] # f THEN "cross_wake"
                    ELSE IF waiting # {} /\ hit \cap waiting = {} THEN "not_woken_by_event" ELSE viol
-  /\ UNCHANGED <<osreg, ostok, recs, want>>
+  /\ UNCHANGED <<osreg, ostok, recs, rectok, want>>
 
 Next == \/ \E l \in Loops, f \in Fds, k \in Ints, id \in Ids : Wait(l, f, k, id)
         \/ \E l \in Loops, f \in Fds, ks \in {{"R"}, {"W"}, {"R", "W"}} : Del(l, f, ks)
         \/ \E f \in Fds : Close(f)
+        \/ \E id \in Ids : Timeout(id)
         \/ \E l \in Loops, f \in Fds : Ready(l, f)
 Spec == Init /\ [][Next]_vars
 
@@ -102,5 +122,7 @@ Spec == Init /\ [][Next]_vars
 InterestExact == \A l \in Loops, f \in Fds : osreg[l][f] = want[l][f]
 \* C20: readiness wakes exactly the coroutine waiting on that descriptor, by the event itself
 NoViolation == viol = "none"
+\* C20: the kernel's registration for a descriptor carries the token of the coroutine that waits on it
+TokenOfWaiter == \A i \in Ids : parked[i] # <<0, 0>> => ostok[parked[i][1]][parked[i][2]] = Enc(i)
 DumpHist == (Len(hist) = MaxOps) => PrintT(<<"REPLAY", ToJson(hist)>>)
 =============================================================================
